@@ -334,6 +334,7 @@ func C10(ctx *core.Ctx) {
 		c10ForcedModifiers(ctx, cc)
 		c10IncludeDir(ctx, cc)
 		c10JSONAnnotations(ctx, cc)
+		c10Regexps(ctx, cc)
 	}
 	gs, err := peg.ParseSource(string(src))
 	if err != nil {
@@ -691,6 +692,7 @@ func c10EnumNumbering(ctx *core.Ctx) {
 				"after numbering an element the running counter can be ≤ that element's value: the next implicit enum member gets a number already in use (e.g. `A = 0, B` gives B = 0)")
 		}
 	}
+	found += c10EnumNumberingInMemory(ctx, cc, pp)
 	if found == 0 {
 		ctx.Unresolved("C10.R4", "enum numbering action", "no parser function numbers EnumValue.Value from a running counter")
 	}
